@@ -9,8 +9,11 @@ def main():
     c.trusted = ["Coq 8.16.1 kernel (coqc; vm_compute in Examples and generated obligations)"] + locks.TRUSTED
     c.assumptions = locks.ASSUMPTIONS
     c.kind_filter = lambda k: k not in vlib.LIFETIME_KINDS
+    locks.gen_spin_orders(c)      # coq/Gen/SpinOrders.v from the current spinlock.hpp, before the proof leg uses it
     c.prove(["C12"])
     locks.run(c)
-    sys.exit(c.finish())
+    if c.tier == "thorough" and not c.replay:
+        locks.coqchk(c, "FV.Props.Properties_C12")
+    sys.exit(c.finish(widen=lambda: locks.widen(c)))
 
 main()
